@@ -390,6 +390,13 @@ pub fn generate(property: &str, tier: &str, seed: u64, index: u64) -> Plan {
         "C10" => c10(property, seed),
         "C11" => c11(property, seed, index),
         "C12" => c12(property, seed, index),
+        "C18" => c18(property, seed, index),
+        "C17" => {
+            let mut p = s1(property, if index % 2 == 0 { "s1-3to4peers" } else { "s1" }, seed, &S1Opts { min_peers: if index % 2 == 0 { 3 } else { 2 }, desync: index % 3 == 0, allow_lockstep: true, frames_lo: 80, frames_hi: 500, long_run_pct: 3, ..Default::default() });
+            // several local players per peer are the interesting case
+            let _ = &mut p;
+            p
+        }
         "C13" => match index % 8 {
             0 => synctest(property, seed, false, true),
             1..=3 => synctest(property, seed, false, false),
@@ -1244,4 +1251,77 @@ pub fn c11(property: &str, seed: u64, index: u64) -> Plan {
         p.api.push(ApiCall { node, at_us: at, call: Api::SetDelay { handle, delay: c.range(&[6, j], 0, 6) as usize } });
     }
     p
+}
+
+
+// ------------------------------------------------------------------ C18
+
+pub fn c18(property: &str, seed: u64, index: u64) -> Plan {
+    let c = Ch::new(seed, "c18");
+    match index % 6 {
+        0 => {
+            // all-local session: no remote peers at all
+            let mut p = s1(property, "c18-all-local", seed, &S1Opts { faults: false, allow_spectators: false, allow_lockstep: true, ..Default::default() });
+            let np = c.range(&[1], 1, 4) as usize;
+            p.nodes.truncate(1);
+            p.nodes[0].kind = NodeKind::Peer { locals: (0..np).collect() };
+            p.nodes[0].drain = c.chance(&[2], 500_000);
+            p.cfg.num_players = np;
+            p.links.clear();
+            p.windows.clear();
+            let per = 1_000_000 / p.cfg.fps as u64;
+            p.horizon_us = c.range(&[3], 3000, 20_000) * per;
+            p.scenario = "c18-all-local".into();
+            p
+        }
+        1 => {
+            // events are never drained; unequal tick rates keep wait recommendations coming
+            let mut p = s1(property, "c18-never-drained", seed, &S1Opts { max_peers: 3, frames_lo: 3000, frames_hi: 9000, long_run_pct: 0, desync: c.chance(&[4], 500_000), ..Default::default() });
+            for (i, n) in p.nodes.iter_mut().enumerate() {
+                n.drain = false;
+                if i == 0 {
+                    n.tick.period_us = n.tick.period_us * 97 / 100;
+                }
+            }
+            p
+        }
+        2 => {
+            // a spectator goes silent: it keeps receiving but never polls again
+            let mut p = s1(property, "c18-silent-spectator", seed, &S1Opts { faults: false, max_peers: 2, force_spectators: true, frames_lo: 600, frames_hi: 1500, long_run_pct: 0, ..Default::default() });
+            let n = p.nodes.len();
+            for i in 0..n {
+                if matches!(p.nodes[i].kind, NodeKind::Spectator { .. }) {
+                    p.nodes[i].tick.stop_us = Some(c.range(&[5, i as u64], ms(300), p.horizon_us / 2));
+                }
+            }
+            p.cfg.timeout_ms = 60_000; // the spectator must go because of the 128-input cap, not the timer
+            p.cfg.notify_ms = 20_000;
+            p.oracle.silent_spectators_cut = true;
+            p
+        }
+        3 => {
+            let mut p = s1(property, "c18-desync-lossy", seed, &S1Opts { desync: true, max_peers: 3, frames_lo: 3000, frames_hi: 8000, long_run_pct: 0, ..Default::default() });
+            let h = p.horizon_us;
+            if let Some(l) = p.links.first().cloned() {
+                p.windows.push(Window { from: l.from, to: l.to, start_us: h / 4, end_us: h / 2, kinds: 1 << K_CHECKSUM, action: WinAction::Drop });
+            }
+            p
+        }
+        4 => {
+            // repeated one-way ack outages of up to 0.9 x timeout
+            let mut p = s1(property, "c18-ack-outages", seed, &S1Opts { faults: false, max_peers: 3, frames_lo: 2000, frames_hi: 5000, long_run_pct: 0, ..Default::default() });
+            p.cfg.timeout_ms = 2000;
+            p.cfg.notify_ms = 500;
+            let mut t = ms(1500);
+            while t + ms(4000) < p.horizon_us {
+                let l = p.links[c.range(&[6, t], 0, p.links.len() as u64 - 1) as usize].clone();
+                let to_or_from_spec = matches!(p.nodes[l.to].kind, NodeKind::Spectator { .. }) || matches!(p.nodes[l.from].kind, NodeKind::Spectator { .. });
+                let d = if to_or_from_spec { ms(c.range(&[7, t], 100, 600)) } else { ms(c.range(&[7, t], 200, 1800)) };
+                p.windows.push(Window { from: l.from, to: l.to, start_us: t, end_us: t + d, kinds: (1 << K_INPUT_ACK) | (1 << K_INPUT), action: WinAction::Drop });
+                t += d + ms(c.range(&[8, t], 1500, 5000));
+            }
+            p
+        }
+        _ => s1(property, "s1-long", seed, &S1Opts { frames_lo: 3000, frames_hi: 10_000, long_run_pct: 0, ..Default::default() }),
+    }
 }
